@@ -1,12 +1,158 @@
 // Contract harnesses for statime-wire/src/messages/header.rs (child module: sees private items).
+// Property C41: PTP common header codec.
 #![allow(unused_imports)]
 use super::*;
+use crate::common::ClockIdentity;
+
+fn any_header() -> Header {
+    // type invariants: SdoId is 12 bit (SdoId::try_from), version nibbles < 16 (PtpVersion::new)
+    let sdo: u16 = kani::any();
+    kani::assume(sdo <= 0xfff);
+    let major: u8 = kani::any();
+    let minor: u8 = kani::any();
+    kani::assume(major < 16 && minor < 16);
+    Header {
+        sdo_id: SdoId::try_from(sdo).unwrap(),
+        version: PtpVersion::new(major, minor).unwrap(),
+        domain_number: kani::any(),
+        alternate_master_flag: kani::any(),
+        two_step_flag: kani::any(),
+        unicast_flag: kani::any(),
+        ptp_profile_specific_1: kani::any(),
+        ptp_profile_specific_2: kani::any(),
+        leap61: kani::any(),
+        leap59: kani::any(),
+        current_utc_offset_valid: kani::any(),
+        ptp_timescale: kani::any(),
+        time_tracable: kani::any(),
+        frequency_tracable: kani::any(),
+        synchronization_uncertain: kani::any(),
+        correction_field: TimeInterval(kani::any()),
+        source_port_identity: PortIdentity {
+            clock_identity: ClockIdentity(kani::any()),
+            port_number: kani::any(),
+        },
+        sequence_id: kani::any(),
+        log_message_interval: kani::any(),
+    }
+}
+
+fn any_message_type() -> MessageType {
+    let v: u8 = kani::any();
+    let r = MessageType::try_from(v);
+    kani::assume(r.is_ok());
+    r.unwrap()
+}
+
+/// post (m -> bytes -> m): every header (all field values), every message type and every content
+/// length that fits the 16-bit length field serialises into a 34-byte buffer (whatever it
+/// contained before) and parses back to the same header, type and total length; the output does
+/// not depend on the buffer's previous content; an oversized length gives Err, never a panic.
+#[kani::proof]
+fn c41_p_header_roundtrip() {
+    let h = any_header();
+    let t = any_message_type();
+    let content_length: usize = kani::any();
+    kani::assume(content_length <= 70_000);
+    let mut buf: [u8; 34] = kani::any();
+    let mut buf2: [u8; 34] = kani::any();
+    let r = h.serialize_header(t, content_length, &mut buf);
+    if content_length + 34 <= 0xffff {
+        assert!(r.is_ok());
+        let back = Header::deserialize_header(&buf);
+        assert!(back.is_ok());
+        let back = back.unwrap();
+        assert!(back.header == h);
+        assert!(back.message_type == t);
+        assert!(back.message_length as usize == content_length + 34);
+        // every one of the 34 bytes is defined by (h, t, length) alone
+        assert!(h.serialize_header(t, content_length, &mut buf2).is_ok());
+        assert!(buf == buf2);
+        // reserved fields are sent as zero
+        assert!(buf[16..20] == [0u8; 4] && buf[32] == 0);
+        assert!(buf[6] & 0b1001_1000 == 0 && buf[7] & 0x80 == 0);
+    } else {
+        assert!(r.is_err());
+    }
+    kani::cover!(r.is_ok() && content_length == 0xffff - 34, "largest message length");
+    kani::cover!(r.is_err(), "oversize rejected");
+}
+
+/// post (bytes -> m -> bytes): parsing any byte string of length <= 40 never panics; fewer than 34
+/// bytes or an unknown message type are rejected; a parsed header re-serialises to the input with
+/// the reserved fields (flag bits 3,4,7 of octet 6, bit 7 of octet 7, messageTypeSpecific octets
+/// 16..20, controlField octet 32) cleared, and parsing is idempotent on that canonical form.
+#[kani::proof]
+fn c41_p_header_reparse_canonical() {
+    let b: [u8; 40] = kani::any();
+    let n: usize = kani::any();
+    kani::assume(n <= 40);
+    let r = Header::deserialize_header(&b[..n]);
+    match r {
+        Ok(d) => {
+            assert!(n >= 34);
+            assert!(matches!(b[0] & 0xf, 0 | 1 | 2 | 3 | 8 | 9 | 0xa | 0xb | 0xc | 0xd));
+            assert!(d.message_length == u16::from_be_bytes([b[2], b[3]]));
+            assert!(d.message_type as u8 == b[0] & 0xf);
+            let mut out = [0u8; 34];
+            let len = d.message_length as usize;
+            if len >= 34 {
+                assert!(d.header.serialize_header(d.message_type, len - 34, &mut out).is_ok());
+                let mut canon = [0u8; 34];
+                canon.copy_from_slice(&b[..34]);
+                canon[6] &= !0b1001_1000;
+                canon[7] &= !0x80;
+                canon[16] = 0;
+                canon[17] = 0;
+                canon[18] = 0;
+                canon[19] = 0;
+                canon[32] = 0;
+                assert!(out == canon);
+                let again = Header::deserialize_header(&out);
+                assert!(again.is_ok() && again.unwrap() == d);
+            }
+            // parsed values respect the type invariants
+            assert!(u16::from(d.header.sdo_id) <= 0xfff);
+            assert!(d.header.version.major() < 16 && d.header.version.minor() < 16);
+        }
+        Err(_) => {
+            assert!(n < 34 || !matches!(b[0] & 0xf, 0 | 1 | 2 | 3 | 8 | 9 | 0xa | 0xb | 0xc | 0xd));
+        }
+    }
+    kani::cover!(r.is_ok(), "header parsed");
+    kani::cover!(r.is_err() && n >= 34, "unknown message type rejected");
+}
+
+/// STATEMENT, literally: "every message it parses re-serialises to the parsed prefix of the input".
+/// For the header this is FALSE for inputs with non-zero reserved fields (the parser drops them, the
+/// serialiser writes zeros). Kept as the statement-derived obligation; see c41_p_header_reparse_canonical
+/// for what does hold.
+#[kani::proof]
+fn c41_p_header_reparse_strict() {
+    let b: [u8; 34] = kani::any();
+    if let Ok(d) = Header::deserialize_header(&b) {
+        let len = d.message_length as usize;
+        kani::assume(len >= 34);
+        let mut out = [0u8; 34];
+        assert!(d.header.serialize_header(d.message_type, len - 34, &mut out).is_ok());
+        let header_bytes_preserved = out == b;
+        assert!(header_bytes_preserved);
+    }
+    kani::cover!(true, "reachable");
+}
+
+/// canary: claims the two-step flag is lost in the round trip (false claim: it is preserved).
+#[kani::proof]
+fn c41_canary_header_flag_lost() {
+    let h = any_header();
+    let mut buf = [0u8; 34];
+    h.serialize_header(MessageType::Sync, 10, &mut buf).unwrap();
+    let back = Header::deserialize_header(&buf).unwrap();
+    assert!(back.header.two_step_flag != h.two_step_flag);
+}
 
 #[cfg(all(kani, test))]
 mod replay {
-    extern crate std;
-    #[allow(unused_imports)]
-    use std::{vec, vec::Vec};
     use super::*;
     include!(concat!(env!("VERIF_REPLAY_DIR"), "/statime_wire__messages__header.rs"));
 }
